@@ -355,6 +355,13 @@ def gen_P(rng, m):
                 v = Fraction(rng.randint(-16, 16), 8)
                 P[i][j] = v
                 P[j][i] = v
+    if m > 1 and rng.random() < 0.3:
+        # transition / difference densities: an exactly zero diagonal entry whose row is not empty (the matrix is not PSD)
+        i = rng.randrange(m)
+        P[i][i] = Fraction(0)
+        j = rng.choice([t for t in range(m) if t != i])
+        if P[i][j] == 0:
+            P[i][j] = P[j][i] = Fraction(rng.choice([-5, -3, 3, 7]), 8)
     return P
 
 
